@@ -51,12 +51,15 @@ struct GenKnobs {
   double fault_point_rate = 0.15;
   double natural_error_rate = 0.05;
   int loop_max_iter = 4;
+  int extra_bodies = 0;      // further independent top-level bodies over the same prelude and functions (probe programs)
+  int extra_statements = 5;  // statements per extra body
 };
 
 struct GenProgram {
   json ast;                  // {"prelude":[S..], "funcs":[S..], "body":[S..]}
   int fault_points = 0;      // number of fault point ids used (1..fault_points)
   std::vector<std::string> user_errors; // names usable in raise / when
+  std::vector<json> extra_bodies;       // each an array of statements valid after prelude+funcs
 };
 
 GenProgram gen_program(Rng& r, const GenKnobs& k);
